@@ -166,6 +166,14 @@ func (sc *RevScenario) evalLiveness(rc *ruleCtx, obs *RevObs, leakRule, readRule
 			rc.fail(leakRule, "blocked_after_last_answer", fmt.Sprintf("caller %d.%d: returned at %s although the last answer / cancellation it could wait for was at %s", co.World.ID, co.Rep, rel(co.TReturn), rel(li)))
 		}
 	}
+	for _, x := range obs.Net.All() {
+		if x.Rec.Hops > 0 {
+			rc.st.Probes["redirect_loop_entered"]++
+		}
+		if x.Rec.Hops >= redirectLoopCap/2 {
+			rc.fail(leakRule, "endless_redirect_chain_followed/"+x.Kind, fmt.Sprintf("%s: the library followed %d consecutive redirects of a server that redirects for ever (only the simulated server's giving up ended it)", x.Key, x.Rec.Hops))
+		}
+	}
 	if len(obs.InFlight) > 0 {
 		rc.fail(leakRule, "exchange_in_flight_at_return", "exchanges still in flight when the call returned: "+strings.Join(obs.InFlight, ","))
 	}
